@@ -126,6 +126,8 @@ pub struct Profile {
     /// a third of the histories start from a state re-based (through from_block) to a low DOSC speed, so that
     /// cheap proofs of work earn a non-zero reward and move the recorded speed
     pub low_dosc_start: bool,
+    /// mainnet histories begin with a jump into the window between TIP-902 (180 000) and TIP-906 (830 000)
+    pub start_in_legacy_window: bool,
 }
 
 impl Profile {
@@ -151,6 +153,7 @@ impl Profile {
             lead_blocks: 0,
             seed_funds: false,
             low_dosc_start: false,
+            start_in_legacy_window: false,
         }
     }
 }
@@ -729,6 +732,7 @@ impl<'a> Builder<'a> {
 
     fn build_normal(&mut self, tp: &TxPlan, new_token: bool) -> Option<Built> {
         let mut ins = tp.ins.clone();
+        let mut staked_pos: Option<bool> = None;
         if self.p.prefer_staked && tp.amount % 3 == 0 {
             let staked: Vec<TxHash> = self.w.staked_txs.iter().map(|x| x.0).collect();
             let cands: Vec<usize> = self.avail.iter().enumerate().filter(|(_, c)| c.id.index == 0 && staked.contains(&c.id.txhash)).map(|(i, _)| i).collect();
@@ -737,9 +741,15 @@ impl<'a> Builder<'a> {
                 let c = self.avail.remove(i);
                 self.avail.insert(0, c);
                 ins.insert(0, 0);
+                staked_pos = Some(tp.amount % 2 == 0);
             }
         }
-        let inputs = pick_inputs(&ins, &mut self.avail, &[]);
+        let mut inputs = pick_inputs(&ins, &mut self.avail, &[]);
+        if staked_pos == Some(false) && inputs.len() >= 2 && !matches!(inputs[0].cov, CovSpec::SigLegacy(_)) {
+            // the staked coin goes last, behind coins that may share its covenant
+            let c = inputs.remove(0);
+            inputs.push(c);
+        }
         if inputs.is_empty() {
             return None;
         }
@@ -838,7 +848,13 @@ impl<'a> Builder<'a> {
         };
         let mut tx = self.base(TxKind::DoscMint, &inputs);
         tx.data = stdcode::serialize(&(difficulty, proof.to_bytes())).unwrap().into();
-        tx.outputs.push(CoinData { covhash: self.dest(tp.outs[0].dest).hash(), value: CoinValue(erg), denom: Denom::Erg, additional_data: Default::default() });
+        if tp.fee % 3 == 0 && erg >= 1 {
+            // the minted ERG split over two outputs, the larger part first
+            tx.outputs.push(CoinData { covhash: self.dest(tp.outs[0].dest).hash(), value: CoinValue(erg - 1), denom: Denom::Erg, additional_data: Default::default() });
+            tx.outputs.push(CoinData { covhash: self.dest(tp.outs[0].dest).hash(), value: CoinValue(1), denom: Denom::Erg, additional_data: Default::default() });
+        } else {
+            tx.outputs.push(CoinData { covhash: self.dest(tp.outs[0].dest).hash(), value: CoinValue(erg), denom: Denom::Erg, additional_data: Default::default() });
+        }
         let totals = Self::totals(&inputs);
         let tp2 = TxPlan { outs: tp.outs[1..].to_vec(), ..tp.clone() };
         let mel_slots = self.change_outputs(&mut tx, &tp2, &totals, &BTreeMap::new());
@@ -1004,8 +1020,19 @@ impl<'a> Builder<'a> {
             denom: liq.cdh.coin_data.denom,
             additional_data: adata(tp.outs[0].adata),
         });
-        let mut b = self.finish(tx, inputs, tp, &[], 0);
-        b.spelling = Some(spelling);
+        let mut mel_slots: Vec<(usize, u8)> = vec![];
+        if tp.fee % 5 == 4 {
+            // a second output makes this a non-request: it must be left exactly as declared
+            tx.outputs.push(CoinData {
+                covhash: self.dest(tp.outs[0].dest.wrapping_add(3)).hash(),
+                value: CoinValue(0),
+                denom: Denom::Mel,
+                additional_data: Default::default(),
+            });
+            mel_slots.push((1, 1));
+        }
+        let mut b = self.finish(tx, inputs, tp, &mel_slots, 0);
+        b.spelling = Some(if mel_slots.is_empty() { spelling } else { "withdrawal-with-second-output" });
         b.pool = Some(k);
         Some(b)
     }
@@ -1370,7 +1397,11 @@ pub fn trace_on() -> bool {
 }
 
 pub fn mk_action(a: Option<(i8, u8)>) -> Option<ProposerAction> {
-    a.map(|(d, dest)| ProposerAction { fee_multiplier_delta: d, reward_dest: CovSpec::from_sel(dest).hash() })
+    a.map(|(d, dest)| ProposerAction {
+        fee_multiplier_delta: d,
+        // one proposer in sixteen burns the reward
+        reward_dest: if dest % 16 == 15 { Address(HashVal::default()) } else { CovSpec::from_sel(dest).hash() },
+    })
 }
 
 /// Runs a plan. Stops at the first violation reported by the monitor.
@@ -1397,6 +1428,14 @@ pub fn run_plan(plan: &Plan, profile: &Profile, mon: &mut dyn Monitor, st: &mut 
         }
         snap = w.snap();
         st.class("started-past-legacy-heights");
+    }
+    if profile.start_in_legacy_window && w.net == NetID::Mainnet {
+        let target = [179_999u64, 180_001, 199_999, 400_000, 499_999, 829_990][plan.cfg.val as usize % 6];
+        if !teleport(&mut w, target, st) {
+            return Ok(());
+        }
+        snap = w.snap();
+        st.class("started-in-legacy-window");
     }
     if profile.warp && w.net == NetID::Testnet {
         // fast-forward with empty blocks to just below the testnet activation height
